@@ -74,6 +74,14 @@ def gen_files(tier):
                 if sul:
                     case['sul'] = sul      # the label's fields are free (C01): the index must not depend on them
                 yield case
+    # records of 255 / 256 / 257 / 300 segments (a segment count does not fit one byte; nothing in the format bounds it)
+    for nseg in (255, 256, 257, 300):
+        for eflr, typ in ((0, 0), (1, 5)):
+            L = 12 * nseg
+            cuts = list(range(12, L, 12))
+            yield {'recs': [{'eflr': 1, 'type': 0, 'L': 13, 'lb': 'coded'},
+                            {'eflr': eflr, 'type': typ, 'L': L, 'lb': 'coded', 'cuts': cuts, 'opts': [[0, 0, 0]] * nseg, 'newvr': [0] * nseg},
+                            {'eflr': 1, 'type': 1, 'L': 28, 'lb': 'coded', 'cuts': [12], 'opts': [[0, 0, 0], [1, 0, 0]], 'newvr': [0, 1]}]}
     # 2-3 records, reduced per-record alphabet
     variants = [(k, L, lay) for k in kinds for L in (1, 13, 28) for lay in c01.REC_LAYOUTS
                 if not (lay.startswith('split') and L < 2)]
@@ -100,6 +108,8 @@ def op_menu(recs, lay):
     for i, rec in enumerate(recs):
         total = len(rec['payload'])
         bounds = [0] + list(rec['cuts']) + [total]
+        if len(bounds) > 12:        # many segments: the boundaries at the start, around the 255th / 256th segment and at the end
+            bounds = sorted(set(bounds[:2] + bounds[253:258] + bounds[-2:]))
         offs = {0, 1, total - 1, total, total + 1}
         for b in bounds[1:-1]:
             offs |= {b - 1, b, b + 1}
@@ -311,6 +321,43 @@ def check_index(system):
     return bad
 
 
+_PATH = None
+
+
+def check_by_path(data, lay, recs):
+    """The index made from a path (what the tools do).  Every file of this process is written to the same path string in
+    turn: the index is of the bytes that the path holds now."""
+    global _PATH
+    import os
+    from TotalDepth.RP66V1.core import pIndex
+    if _PATH is None:
+        import atexit
+        from mc import seams
+        os.makedirs(seams.SCRATCH, exist_ok=True)
+        _PATH = os.path.join(seams.SCRATCH, 'c02-%d.dlis' % os.getpid())
+        atexit.register(lambda: os.path.exists(_PATH) and os.remove(_PATH))
+    with open(_PATH, 'wb') as f:
+        f.write(data)
+
+    class _S:
+        pass
+    try:
+        with pIndex.LogicalRecordIndex(_PATH) as idx:
+            sys_ = _S()
+            sys_.index, sys_.recs, sys_.lay = idx, recs, lay
+            bad = check_index(sys_)
+            if not bad:
+                for i, rec in enumerate(recs):
+                    got = idx.get_file_logical_data(i, 0, -1).logical_data.bytes
+                    if got != rec['payload']:
+                        bad.append(({'kind': 'fetch_bytes', 'entry': 'index made from a path'}, 'index made from a path: fetch(%d) gives %d bytes, written %d'
+                                    % (i, len(got), len(rec['payload']))))
+                        break
+    except Exception as err:  # noqa
+        return [({'kind': 'index_raises', 'exc': type(err).__name__, 'by_path': True}, 'index made from a path: %s: %s' % (type(err).__name__, err))]
+    return [(dict(sig, by_path=True), 'index made from a path that held another file before: ' + msg) for sig, msg in bad]
+
+
 def explore_file(case, depth, res):
     data, lay, recs, _ = c01.materialise(case)
     menu = op_menu(recs, lay)
@@ -323,7 +370,7 @@ def explore_file(case, depth, res):
         res.violate({'kind': 'index_raises', 'exc': type(err).__name__}, {'recs': case['recs'], 'sul': case.get('sul'), 'history': []},
                     'building the index of a well-formed file raised %s: %s' % (type(err).__name__, err))
         return 0, 0, False, len(menu)
-    for sig, msg in check_index(s0):
+    for sig, msg in check_index(s0) + check_by_path(data, lay, recs):
         res.violate(sig, {'recs': case['recs'], 'sul': case.get('sul'), 'history': []}, msg)
     outcomes = []
 
@@ -362,7 +409,7 @@ def replay(case):
     def make():
         return System(data, lay, recs)
     try:
-        bad = check_index(make()) if not case.get('history') else []
+        bad = (check_index(make()) + check_by_path(data, lay, recs)) if not case.get('history') else []
     except Exception as err:  # noqa
         return [{'sig': {'kind': 'index_raises', 'exc': type(err).__name__}, 'case': case,
                  'msg': 'building the index of a well-formed file raised %s: %s' % (type(err).__name__, err)}]
